@@ -60,7 +60,22 @@ pub fn parse_args() -> (String, Mode) {
         "--replay" if args.len() >= 4 => Mode::Replay(PathBuf::from(&args[3])),
         _ => usage(),
     };
+    // every check has a last-resort watchdog (a hang or a pathologically slow case is "inconclusive",
+    // exit 2, never a verdict and never an endless run); individual checks set tighter ones
+    match mode {
+        Mode::Run(Tier::Quick) => watchdog_dyn(prop.clone(), 1500),
+        Mode::Run(Tier::Thorough) => watchdog_dyn(prop.clone(), 4 * 3600),
+        Mode::Replay(_) => watchdog_dyn(prop.clone(), 1800),
+    }
     (prop, mode)
+}
+
+fn watchdog_dyn(prop: String, secs: u64) {
+    std::thread::spawn(move || {
+        std::thread::sleep(std::time::Duration::from_secs(secs));
+        println!("INCONCLUSIVE property={prop} watchdog expired after {secs}s");
+        std::process::exit(2);
+    });
 }
 
 pub fn verif_root() -> PathBuf {
